@@ -407,3 +407,40 @@ prop('C03',
      level_text='Exploration. The value returned by every fibre_scheduler_next call of the generated histories is '
      'compared with the model (runnable work -> t, else earliest due, else t+0x7fffffff).',
      level_note='Interrupt timing inside the pass is covered by the E2 stages (added below when built).')
+
+# ----------------------------------------------------------------------- C04
+SHIM = ['rt/shim.c']
+prop('C04',
+     'co: ucontext "threads" - 1-5 senders x 1-40 messages and one receiver that holds back 0..depth-1 messages, '
+     'depth in {1,2,3,4,8,32}, message size 1-12, under uniform random schedules (switch probability 0.02/0.1/0.5 at '
+     'every atomic or plain access of messageq.c) and PCT schedules (d=1..3), spin loops backing off; isr: 13 fixed '
+     'scenarios (empty, part-full, full, claimed-but-unsent, index wrap, depth 1/2/3/4/32; main context as sender or '
+     'receiver) with an interrupt-context sender (claim, fill, send) injected before every schedule point, and a '
+     'second one inside the first at every one of its points. Non-trivial = schedule/placement in which two claims '
+     'overlapped or a claim was in flight while the queue was full; distinct by schedule hash / placement.',
+     [Stage('isr', ['harness/mq_conc.c'] + SHIM, MQ, preset='shim', nproc=1,
+            args={'quick': ['--extra', 'isr'], 'thorough': ['--extra', 'isr']},
+            needs_min={'single_isr_placements': 150, 'nested_pair_placements': 1000, 'placements_nontrivial': 100}),
+      Stage('co', ['harness/mq_conc.c'] + SHIM, MQ, preset='shim', nproc=16,
+            args={'quick': ['--extra', 'co'], 'thorough': ['--extra', 'co']},
+            needs_min={'schedules_nontrivial': 5000, 'schedules_with_claim_in_flight_while_full': 1000,
+                       'messages_delivered': 100000}),
+      Stage('co-clang', ['harness/mq_conc.c'] + SHIM, MQ, preset='shim', cc='clang', nproc=16, tiers=('thorough',),
+            args={'thorough': ['--extra', 'co', '--cases', '500000']})],
+     assumptions=['execution under the shim is serialised, hence sequentially consistent; weak-memory behaviour is '
+                  'C07\'s subject', 'releases are issued in receive order',
+                  'order oracle uses the weakest reading: only if claim A returned before claim B was invoked must A '
+                  'be received first',
+                  'a buffer counts as free from the invocation of release for the double-hand-out oracle and as in use '
+                  'until release returned for the spurious-failure oracle (benefit of the doubt both ways)'],
+     exhaustive_note='isr stage: every placement of one ISR and of a nested pair in the 13 scenarios',
+     engine='E2', technique='runtime monitoring with schedule control: compiler-instrumented schedule points '
+     '(private __tsan_* runtime), interrupt-injection sweeps and random/PCT coroutine schedules; ownership-table, '
+     'unique-id history and conservation oracles at the client boundary; guard zones',
+     level_text='Exploration with fault enumeration of interrupt placements. The real messageq.c runs under a private '
+     'TSan runtime that turns every atomic and plain access into a schedule point; an interrupt-context sender is '
+     'injected at every point of 13 scenarios (and a second inside the first), and tens of thousands of random and '
+     'priority-based coroutine schedules are run; ownership, payload, exactly-once, order, spurious-failure and '
+     'free-count oracles watch the client boundary.',
+     level_note='Interleavings are swept for <= 2 injected ISRs in fixed scenarios and sampled otherwise; not all '
+     'schedules of all configurations.')
